@@ -217,49 +217,42 @@ func (x *Ctx) wrapperSymmetry(r *core.Result, rs *core.RuleStat, names ...string
 			r.Fail(rs, key+":storeback", x.W.Pos(withBuf.Pos()), "the grown stack is not stored back into the buffer")
 			bad = true
 		}
-		// results used identically: every phi that merges an extract of one call merges the same-index extract of the other
-		exOf := func(c *ssa.Call) map[int]*ssa.Extract {
-			m := map[int]*ssa.Extract{}
+		// results used identically: the same result index flows to the same phi or to the same return position
+		useSig := func(c *ssa.Call) map[string]bool {
+			sig := map[string]bool{}
 			for _, ref := range *c.Referrers() {
-				if ex, ok := ref.(*ssa.Extract); ok {
-					m[ex.Index] = ex
-				}
-			}
-			return m
-		}
-		ea, eb := exOf(withBuf), exOf(without)
-		for idx, xa := range ea {
-			if isIntSlice(xa.Type()) {
-				continue
-			}
-			xb := eb[idx]
-			if xb == nil {
-				r.Fail(rs, key, x.W.Pos(without.Pos()), fmt.Sprintf("result %d is used in one buffer branch only", idx))
-				bad = true
-				continue
-			}
-			for _, u := range *xa.Referrers() {
-				phi, ok := u.(*ssa.Phi)
-				if !ok {
-					r.Fail(rs, key, x.W.Pos(u.Pos()), fmt.Sprintf("result %d of the buffer branch is used before the branches join", idx))
-					bad = true
+				ex, ok := ref.(*ssa.Extract)
+				if !ok || isIntSlice(ex.Type()) {
 					continue
 				}
-				found := false
-				for _, ed := range phi.Edges {
-					if ed == xb {
-						found = true
+				for _, u := range *ex.Referrers() {
+					switch u := u.(type) {
+					case *ssa.Phi:
+						sig[fmt.Sprintf("%d->phi:%s", ex.Index, u.Name())] = true
+					case *ssa.Return:
+						for i, res := range u.Results {
+							if res == ex {
+								sig[fmt.Sprintf("%d->return[%d]", ex.Index, i)] = true
+							}
+						}
+					case *ssa.DebugRef:
+					default:
+						sig[fmt.Sprintf("%d->other:%T", ex.Index, u)] = true
 					}
 				}
-				if !found {
-					r.Fail(rs, key, x.W.Pos(phi.Pos()), fmt.Sprintf("result %d of the two buffer branches does not join in the same variable", idx))
-					bad = true
-				}
+			}
+			return sig
+		}
+		sa, sb := useSig(withBuf), useSig(without)
+		for k := range sa {
+			if !sb[k] {
+				r.Fail(rs, key, x.W.Pos(without.Pos()), "results are used differently in the two buffer branches ("+k+" only with a buffer)")
+				bad = true
 			}
 		}
-		for idx, xb := range eb {
-			if _, ok := ea[idx]; !ok && !isIntSlice(xb.Type()) {
-				r.Fail(rs, key, x.W.Pos(without.Pos()), fmt.Sprintf("result %d is used in the nil-buffer branch only", idx))
+		for k := range sb {
+			if !sa[k] {
+				r.Fail(rs, key, x.W.Pos(without.Pos()), "results are used differently in the two buffer branches ("+k+" only without a buffer)")
 				bad = true
 			}
 		}
